@@ -11,7 +11,7 @@ relations (reassembly, whitespace insertion at every token boundary, literal val
 independent exact computation, longest match, keyword rule, unclosed-delimiter position) are
 evaluated on the implementation for every generated string, independent of the model; a
 subsample also goes through execute()."""
-import random, itertools, json, sys
+import random, itertools, json, sys, re
 from fractions import Fraction
 import common as C
 
@@ -24,7 +24,7 @@ IMPORTS = ("From Coq Require Import NArith List.\nFrom Ka Require Import Model.L
 ALPHABET = list("019aexbtoinAFd.-+<=!\"#\\ \t€²é@_|±")
 RED1 = list("01ebx.-+=!\"\\ #to")          # numbers, strings, operators
 RED2 = list("into a1_é€<=.s")               # keywords / identifiers
-WS = [" ", "\t", "\n", " ", " ", "\x1c", "\r"]
+WS = [" ", "\t", "\n", "\u00a0", "\u2003", "\x1c", "\r"]
 IDENT_CHARS = set("abcdefghijklmnopqrstuvwxyzABCDEFGHIJKLMNOPQRSTUVWXYZ0123456789_€$£¥")
 
 REGRESSION = ["1.23457e+06", "1.5e999", "1..5", "0x1F", "0b102", "int", "in t", "\"abc", "#2024",
@@ -374,14 +374,22 @@ def rand_lexeme(rng, consts):
     return rng.choice(["@", "²", "é", "_", "½", ".", "'", "\\", "٣", "一", "~", "&"])
 
 
+HUGE_EXP = re.compile(r"[0-9.]e[-+]?[0-9]{4,}")
+
+
 def rand_sequence(rng, consts):
-    n = rng.choice([1, 2, 2, 3, 3, 4, 5, 6, 8])
-    seps = ["", "", " ", " ", "  ", "\t", "\n", " ", " \t", " "]
-    out = [rng.choice(["", "", " ", "\t "])]
-    for i in range(n):
-        out.append(rand_lexeme(rng, consts))
-        out.append(rng.choice(seps))
-    return "".join(out)
+    """Adjacent lexemes may merge (no separator); a merged exponent of four or more digits is
+    rejected: 10**exponent is computed eagerly by the lexer (and by the model)."""
+    while True:
+        n = rng.choice([1, 2, 2, 3, 3, 4, 5, 6, 8])
+        seps = ["", "", " ", " ", "  ", "\t", "\n", "\u00a0", " \t", "\u2003"]
+        out = [rng.choice(["", "", " ", "\t "])]
+        for i in range(n):
+            out.append(rand_lexeme(rng, consts))
+            out.append(rng.choice(seps))
+        s = "".join(out)
+        if not HUGE_EXP.search(s):
+            return s
 
 
 def representative_lexemes(consts):
@@ -504,6 +512,11 @@ def run(ctx):
         raise RuntimeError("an implementation shard hung")
 
     # ---------------- model
+    try:   # a shard's output is one long Coq string: give coqc a deep stack
+        import resource
+        resource.setrlimit(resource.RLIMIT_STACK, (resource.RLIM_INFINITY, resource.RLIM_INFINITY))
+    except Exception:
+        pass
     model_lines = {}
     if ctx["model_ok"]:
         used = set("".join(ALPHABET + RED1 + RED2)) | set("".join(ex_strs))
